@@ -454,15 +454,17 @@ class Comparison(Display):
             if service1.request is not None:
                 rq_prefix = service1.request.coded_const_prefix()
 
-            if service1 not in dl2.services:
+            # a service which exists under the same name in the other
+            # layer is neither new nor renamed (if its parameters --
+            # possibly including the constant prefix of its request --
+            # differ, this is reported as a parameter change below)
+            if service1.short_name not in dl2_service_names:
                 if rq_prefix is None or rq_prefix not in dl2_request_prefixes:
-                    # TODO: this will not work in cases where the constant
-                    # prefix of a request was modified...
                     service_dict["new_services"].append(  # type: ignore[union-attr]
                         service1)  # type: ignore[arg-type]
 
                 # check whether names of diagnostic services have changed
-                elif service1.short_name not in dl2_service_names:
+                else:
                     # get related diagnostic service for request
                     service2_idx = dl2_request_prefixes.index(rq_prefix)
                     service2 = dl2.services[service2_idx]
